@@ -556,6 +556,38 @@ def ob_test_argv():
     return h
 
 
+def ob_env_ops():
+    """env values of a wrapped command / a test: the real EnvironmentVariables (set / append / prepend, 2-3 operations, on ONE variable or two) evaluated by get_env
+    against an inherited environment in which the variable is set or not: the child sees exactly what the documented meaning of the operations gives, applied in
+    order - each operation working on the result of the one before - and nothing else is touched"""
+    def h():
+        from mesonbuild.utils.core import EnvironmentVariables
+        A = "a ;$"
+        env = EnvironmentVariables()
+        outer_has = choose(2, 'variable set in the inherited environment') == 1
+        outer = {'OTHER': 'o'}
+        if outer_has: outer['V'] = sym_str(1, 'inherited', alphabet=A)
+        ref = dict(outer)
+        nops = 2 + choose(2, 'operations')
+        for i in range(nops):
+            op = ['set', 'append', 'prepend'][choose(3, 'op%d' % i)]
+            name = ['V', 'W'][choose(2, 'var%d' % i)] if i == nops - 1 else 'V'
+            val = sym_str(1, 'value%d' % i, alphabet=A)
+            sep = [':', ';'][choose(2, 'sep%d' % i)] if i == 0 else ':'
+            getattr(env, op)(name, [val], sep)
+            cur = ref.get(name)
+            if op == 'set' or cur is None: ref[name] = val
+            elif op == 'append': ref[name] = cur + sep + val
+            else: ref[name] = val + sep + cur
+        got = env.get_env(dict(outer))
+        check(sorted(got.keys()) == sorted(ref.keys()), 'exactly the variables of the inherited environment and the ones operated on')
+        for k in ref:
+            if k in got: check(len(got[k]) == len(ref[k]) and decide(bt_any(eq(got[k], ref[k]))), 'the child sees the operations applied in order, each to the result of the one before')
+        check(outer.get('V') is None or 'V' in outer, 'the inherited environment itself is not modified')
+        cover('done')
+    return h
+
+
 def ob_test_argv_setup():
     """meson test --setup NAME: the real TestHarness.get_test_runner -> merge_setup_options -> SingleTestRunner for TWO tests in a row (then run up to
     create_subprocess_exec, a recorder). The setup has an exe_wrapper (with a symbolic argument) or none, and a timeout multiplier; -t is given on the command
@@ -627,14 +659,14 @@ def ob_project_commands(dim, full=False):
             st = g.stmts[g.producer[out]]
             r = c.rules[st['rule']]
             return st, sh_split(evaluate(r['command'], st['raw'], c.rules))
-        norm = lambda xs: [os.path.normpath(x) for x in xs]
+        norm = lambda xs: [os.path.normpath(os.path.join(c.bld, x)) if not x.startswith('-') else x for x in xs]
         for t in ('A', 'B', 'C'):
             st, argv = argv_of(pr.outs[t][0])
             check(len(argv) >= 3 and isinstance(argv[0], str) and argv[0].endswith('python3') and argv[1:3] == ['-c', 'pass'], 'the program and its fixed arguments arrive unchanged')
             rest = argv[3:]
-            if t == 'A': exp = list(pr.outs['A'])
-            elif t == 'B': exp = norm(st['ins']) + [pr.outs['B'][0]]
-            else: exp = ([pr.c_cmd_dep] if pr.c_cmd_dep is not None else []) + norm(st['ins']) + list(pr.outs['C'])
+            if t == 'A': exp = norm(list(pr.outs['A']))
+            elif t == 'B': exp = norm(st['ins']) + norm([pr.outs['B'][0]])
+            else: exp = norm([pr.c_cmd_dep] if pr.c_cmd_dep is not None else []) + norm(st['ins']) + norm(list(pr.outs['C']))
             check(norm(rest) == exp, '@INPUT@ / @OUTPUT@ / @OUTPUT0@ become exactly the inputs and outputs of the statement')
         if pr.b_generated:
             stb = g.stmts[g.producer[pr.outs['B'][0]]]
@@ -683,6 +715,7 @@ def obligations(tier):
         out.append(Obligation('join-split%s' % lens, ob_joinsplit(lens), dict(arg_lengths=lens), labels=('done',), max_paths=3000000))
     out.append(Obligation('link-arg-sources', ob_link_arg_sources(), dict(real='Compiler.get_build_link_args, Build.get_project_link_args / get_global_link_args', lists='0-2 symbolic 1-char strings each', targets='2-3 in sequence'), labels=('done',)))
     out.append(Obligation('test-argv', ob_test_argv(), dict(real='mtest.SingleTestRunner.__init__/run/_run_cmd/_run_subprocess, TestHarness.get_wrapper; asyncio.create_subprocess_exec recorded', args='1-2 of 1-2 chars over {a, space, $, quote, backslash}', test_args='0-1', wrapper='none | --wrapper with a symbolic argument | --gdb', protocol='exitcode | tap'), labels=('started',), max_paths=3000000))
+    out.append(Obligation('env-ops', ob_env_ops(), dict(real='utils.core.EnvironmentVariables.set / append / prepend / get_env', operations='2-3 (set | append | prepend) on one variable, the last possibly on another', values='1 symbolic character over a space ; $', inherited='variable set or not'), labels=('done',), max_paths=1000000))
     out.append(Obligation('test-argv-setup', ob_test_argv_setup(), dict(real='TestHarness.get_test_runner / merge_setup_options / SingleTestRunner.__init__ / run up to create_subprocess_exec', tests='2 in a row', setup='exe_wrapper with a symbolic argument | none; timeout_multiplier 0..3',
                           command_line='-t absent | 0..3'), labels=('started',), max_paths=1000000))
     out.append(Obligation('project-commands', ob_project_commands('inputs', not q), dict(real='Interpreter.run + NinjaBackend.generate on a generated project without a compiled language', commands='3 custom targets (@INPUT@, @OUTPUT@, @OUTPUT0@, a target output as an argument) and a generator (@INPUT@, two @OUTPUTn@ in one argument)',
